@@ -43,6 +43,10 @@ def _programs() -> dict[str, dict[str, Any]]:
     Wsm = _weights(300, 7, np.float64)  # 720 kB: below the threshold
     P["float64_small"] = {"fn": lambda x: jnp.tanh(x @ Wsm), "in": (2, 300), "dp": True}
     P["large_in_function_body"] = {"fn": "__fnmods_c15__", "in": (2, 520), "dp": False}
+    Wd = _weights(600, 8)
+    P["cond_operand_dead_in_branches"] = {"fn": lambda x: lax.cond(jnp.sum(x) > 0, lambda a, b: a * 2.0, lambda a, b: a - 1.0, x, jnp.dot(x, Wd)), "in": (2, 600), "dp": False}
+    P["cond_operand_read_only_in_branches"] = {"fn": lambda x: lax.cond(jnp.sum(x) > 0, lambda a, w: a @ w, lambda a, w: a * 2.0 + w[0], x, jnp.asarray(Wd)), "in": (2, 600), "dp": False}
+    P["scan_unused_xs_and_large_const"] = {"fn": lambda x: lax.scan(lambda c, r: (jnp.tanh(c @ Wd), c.sum()), x, jnp.zeros((3, 2)))[0], "in": (2, 600), "dp": False}
     P["no_parameters"] = {"fn": lambda x: jnp.tanh(x) * 2, "in": (2, 8), "dp": False}
     return P
 
